@@ -65,8 +65,12 @@ def x0_of_kin(kin):
 X0_PER_KIN = [0.0]   # set per model (module-level because rate functions must be plain functions)
 
 
+def ident(v):
+    return v
+
+
 def make_model(x0: float = X0, p: dict | None = None, r: Rendering = SMALL, ramp: bool = False, ia: bool = False,
-               mirror: bool = False):
+               mirror: bool = False, derived: bool = False):
     """x' = kin - k*x [+ r*time when ramp].  ia: the initial value of x is assignment-defined (X0 under the
     parameter values at construction, proportional to kin)."""
     from mxlpy import Model
@@ -75,21 +79,31 @@ def make_model(x0: float = X0, p: dict | None = None, r: Rendering = SMALL, ramp
     p = p or P0
     PS = r.ps  # noqa: N806
     X0_PER_KIN[0] = x0 / (p["kin"] * PS)
+    from mxlpy.types import Derived
+
     m = (
         Model()
         .add_parameters({"kin": p["kin"] * PS, "k": p["kk"] * PS})
         .add_variables({"x": InitialAssignment(fn=x0_of_kin, args=["kin"]) if ia else x0})
-        .add_reaction("vin", influx, args=["kin"], stoichiometry={"x": 1.0})
-        .add_reaction("vout", outflux, args=["k", "x"], stoichiometry={"x": -1.0})
     )
+    if derived:
+        # same equations, but the rate laws do not read the stepped parameters directly: the outflow reads a derived
+        # parameter k_d = k, the inflow has rate 1 and a computed stoichiometric coefficient kin
+        m.add_parameter("one", 1.0).add_derived("k_d", fn=ident, args=["k"])
+        sx = Derived(fn=ident, args=["kin"])
+        kname, vin_args = "k_d", ["one"]
+    else:
+        sx, kname, vin_args = 1.0, "k", ["kin"]
+    m.add_reaction("vin", influx, args=vin_args, stoichiometry={"x": sx})
+    m.add_reaction("vout", outflux, args=[kname, "x"], stoichiometry={"x": -1.0})
     if ramp:
         m.add_parameter("r", ramp_rate(r)).add_reaction("vramp", rampflux, args=["time", "r"], stoichiometry={"x": 1.0})
     if mirror:
         # a second variable with the same equation and the same start: it must stay equal to x; an override is
         # then written as two calls in a row on the two variables
         m.add_variables({"y": InitialAssignment(fn=x0_of_kin, args=["kin"]) if ia else x0})
-        m.add_reaction("vin_y", influx, args=["kin"], stoichiometry={"y": 1.0})
-        m.add_reaction("vout_y", outflux, args=["k", "y"], stoichiometry={"y": -1.0})
+        m.add_reaction("vin_y", influx, args=vin_args, stoichiometry={"y": sx})
+        m.add_reaction("vout_y", outflux, args=[kname, "y"], stoichiometry={"y": -1.0})
         if ramp:
             m.add_reaction("vramp_y", rampflux, args=["time", "r"], stoichiometry={"y": 1.0})
     return m
@@ -148,7 +162,7 @@ class Run:
     """One real Simulator driven by specification operations."""
 
     def __init__(self, r: Rendering = SMALL, salt: int = 0, ramp: bool = False, ia: bool = False,
-                 use_jacobian: bool = False, mirror: bool = False):
+                 use_jacobian: bool = False, mirror: bool = False, derived: bool = False):
         from mxlpy import Simulator
 
         self.r = r
@@ -156,7 +170,8 @@ class Run:
         self.ia = ia
         self.cand_kin = {P0["kin"]}     # kin values in force while the simulator had not run yet (ia start state)
         self.mirror = mirror
-        self.model = make_model(r=r, ramp=ramp, ia=ia, mirror=mirror)
+        self.derived = derived
+        self.model = make_model(r=r, ramp=ramp, ia=ia, mirror=mirror, derived=derived)
         self.sim = Simulator(self.model, use_jacobian=use_jacobian)
         self.bases = {0: 0.0}
         self.touched = False     # the history has read the computed views of a result
@@ -254,6 +269,10 @@ class Run:
                 obs = self.observe()
                 if obs is not None and obs and op["tau"]["b"] != 0:
                     self.bases[op["tau"]["b"]] = obs[-1]["t"][-1] - op["tau"]["o"] * self.r.ts
+            elif k == "ssfail":
+                if not self.ramp:  # pragma: no cover
+                    raise AssertionError("ssfail needs the member without a steady state")
+                s.simulate_to_steady_state()
             elif k == "clear":
                 s.clear_results()
             elif k == "read":
@@ -306,6 +325,12 @@ class Run:
 def compare(run: Run, pst: dict, obs, stats: dict | None = None) -> dict | None:
     """pst: state predicted by the specification (after the call); obs: Run.observe(). None = conforms."""
     segs = pst["segs"]
+    if pst.get("failed"):
+        # a call failed: get_result() must answer with the failure, not with the segments simulated before
+        if obs is not None:
+            return {"what": "result", "expected": "a failure value (an earlier call failed)",
+                    "observed_index": [o["t"] for o in obs]}
+        return None
     if obs is None:
         if segs:
             return {"what": "result", "expected_segments": len(segs), "observed": "get_result() is a failure value"}
@@ -335,6 +360,8 @@ def compare(run: Run, pst: dict, obs, stats: dict | None = None) -> dict | None:
         ep = {"kin": g["p"]["kin"] * run.r.ps, "k": g["p"]["kk"] * run.r.ps}
         if getattr(run, "ramp", 0.0):
             ep["r"] = run.ramp
+        if getattr(run, "derived", False):
+            ep["one"] = 1.0
         if set(o["p"]) != set(ep) or any(not tclose(o["p"][n], ep[n]) for n in ep):
             return {"what": "parameters", "segment": i, "expected": ep, "observed": o["p"]}
     # the mirror variable (same equation, same start, every override written for both) stays equal to x
@@ -407,6 +434,8 @@ def compare(run: Run, pst: dict, obs, stats: dict | None = None) -> dict | None:
 def compare_views(run: Run, pst: dict, obs) -> dict | None:
     """The computed views of the result (variables, fluxes, args) cover the whole accumulated axis, repeat the
     raw states, and fluxes reported at a point use the values in force during that point's segment."""
+    if pst.get("failed"):
+        return None
     vw = run.views()
     if vw is None or obs is None:
         return None
@@ -422,6 +451,8 @@ def compare_views(run: Run, pst: dict, obs) -> dict | None:
                 return {"what": "views-values", "view": name, "time": tv, "expected": xv, "observed": gx}
     fl = vw["fluxes"]
     for (tv, xv, p), vin, vout in zip(rows, fl["vin"], fl["vout"]):
+        if run.derived:
+            vin = vin * p["kin"] * PS     # rate 1 with the computed coefficient kin
         if not tclose(vin, p["kin"] * PS) or not close(vout, p["kk"] * PS * xv, 1e-9, 1e-12):
             return {"what": "fluxes", "time": tv, "expected": {"vin": p["kin"] * PS, "vout": p["kk"] * PS * xv},
                     "observed": {"vin": vin, "vout": vout}}
@@ -449,14 +480,16 @@ def hist_salt(hist_steps: list) -> int:
 
 
 def replay_history(hist_steps: list, *, views_at_end: bool = True, r: Rendering = SMALL, ramp: bool = False,
-                   ia: bool = False, use_jacobian: bool = False, mirror: bool = False) -> tuple[dict | None, dict]:
+                   ia: bool = False, use_jacobian: bool = False, mirror: bool = False,
+                   derived: bool = False) -> tuple[dict | None, dict]:
     """Drive one emitted behaviour through the real Simulator; compare after every step.  Raw results are compared
     after every call; the computed views as well once the history itself has read them (operation "read"), and
     always at the end."""
-    run = Run(r, salt=hist_salt(hist_steps), ramp=ramp, ia=ia, use_jacobian=use_jacobian, mirror=mirror)
+    run = Run(r, salt=hist_salt(hist_steps), ramp=ramp, ia=ia, use_jacobian=use_jacobian, mirror=mirror,
+              derived=derived)
     stats = run.stats
     tag = r.name + ("+ramp" if ramp else "") + ("+ia" if ia else "") + ("+jac" if use_jacobian else "") + \
-        ("+mirror" if mirror else "")
+        ("+mirror" if mirror else "") + ("+derived" if derived else "")
     obs = None
     for j, step in enumerate(hist_steps):
         if j > 0 and not hist_steps[j - 1]["st"]["segs"]:
@@ -467,7 +500,7 @@ def replay_history(hist_steps: list, *, views_at_end: bool = True, r: Rendering 
                      "rendering": tag, "observed_index": [o["t"] for o in (run.observe() or [])]}, stats)
         obs = run.observe()
         bad = compare(run, step["st"], obs, stats)
-        if bad is None and run.touched:
+        if bad is None and run.touched and not step["st"].get("failed"):
             bad = compare_views(run, step["st"], obs)
         if bad:
             return ({**bad, "step": j, "rendering": tag}, stats)
@@ -486,12 +519,19 @@ def replay_renderings(hist_steps: list) -> tuple[dict | None, dict]:
     every continuation), half of all histories a model whose initial value is assignment-defined."""
     salt = hist_salt(hist_steps)
     no_ss = all(s["op"]["k"] != "ss" for s in hist_steps)
-    ramp = no_ss and (salt >> 3) % 2 == 0
+    fails = any(s["op"]["k"] == "ssfail" for s in hist_steps)
+    if fails and not no_ss:
+        # a steady-state run that succeeds and one that fails need different members of the family
+        return None, {"skipped_success_and_failure_of_steady_state": 1}
+    ramp = no_ss and ((salt >> 3) % 2 == 0 or fails)
     ia = (salt >> 4) % 2 == 0
     r = LARGE if (has_eps(hist_steps) and no_ss) else SMALL
     jac = (salt >> 5) % 2 == 0       # construction options of the Simulator are a dimension of the family too
     mirror = (salt >> 6) % 2 == 0
-    bad, stats = replay_history(hist_steps, r=r, ramp=ramp, ia=ia, use_jacobian=jac, mirror=mirror)
+    derived = (salt >> 7) % 2 == 0   # rate laws read a derived parameter / a computed coefficient of the stepped ones
+    bad, stats = replay_history(hist_steps, r=r, ramp=ramp, ia=ia, use_jacobian=jac, mirror=mirror, derived=derived)
+    stats["derived"] = int(derived)
+    stats["fails"] = int(fails)
     stats["large"] = int(r is LARGE)
     stats["ramp"] = int(ramp)
     stats["ia"] = int(ia)
@@ -669,8 +709,8 @@ def record_trace(seed, length: int, weights: dict | None = None, ops: list | Non
     if r is LARGE:
         weights["ss"] = 0
     ramp = r is LARGE      # no steady-state runs there: the time-dependent member of the family
-    jac, mirror = rnd.random() < 0.5, rnd.random() < 0.5
-    run = Run(r, salt=rnd.randrange(1 << 16), ramp=ramp, use_jacobian=jac, mirror=mirror)
+    jac, mirror, derived = rnd.random() < 0.5, rnd.random() < 0.5, rnd.random() < 0.5
+    run = Run(r, salt=rnd.randrange(1 << 16), ramp=ramp, use_jacobian=jac, mirror=mirror, derived=derived)
     ev = []
     offgrid = None
     values = []
